@@ -16,13 +16,13 @@ Ev == Trace[l]
 IsEv(name) == l <= Len(Trace) /\ Ev.e = name
 ToFn(s) == [e \in Epochs |-> s[e]]
 
-TInit == /\ HWMInit /\ l = 1
+TInit == /\ HWMInit /\ l = 1 /\ hsp = FALSE
          /\ J = [e \in Epochs |-> FALSE] /\ C = [e \in Epochs |-> FALSE]
          /\ dq = [e \in Epochs |-> 0] /\ q0 = [e \in Epochs |-> 0]
          /\ dFin = 1 /\ fin0 = 1 /\ ver = 0 /\ k = 0 /\ pc = "off" /\ up = TRUE /\ crashes = 0
 
 TConfig == /\ IsEv("Config") /\ pc \in {"off", "done", "failed"}
-           /\ J' = ToFn(Ev.J) /\ C' = ToFn(Ev.C)
+           /\ J' = ToFn(Ev.J) /\ C' = ToFn(Ev.C) /\ hsp' = Ev.hsp
            /\ \A e \in Epochs : Ev.C[e] => Ev.J[e]
            \* the real import of this chain left exactly what the specification's import rule computes
            /\ LET f == Fresh(ToFn(Ev.J), ToFn(Ev.C)) IN f[1] = ToFn(Ev.q) /\ f[2] = Ev.fin
@@ -31,10 +31,11 @@ TConfig == /\ IsEv("Config") /\ pc \in {"off", "done", "failed"}
 TReset == /\ IsEv("Reset")
           /\ dq' = ToFn(Ev.dq) /\ q0' = ToFn(Ev.dq) /\ dFin' = Ev.fin /\ fin0' = Ev.fin
           /\ ver' = 0 /\ k' = 0 /\ pc' = "off" /\ up' = TRUE /\ crashes' = 0
-          /\ UNCHANGED <<J, C>>
-TBegin == /\ IsEv("Begin") /\ Ev.fin = dFin
+          /\ UNCHANGED <<J, C, hsp>>
+TBegin == /\ IsEv("Begin")
           /\ \/ Begin
              \/ pc = "done" /\ ver = 1 /\ up /\ UNCHANGED vars       \* a later start-up: the version makes it a no-op
+          /\ Ev.fin = dFin'                                          \* after the start-up repair, if any
 TWQ == /\ IsEv("W") /\ Ev.cls = "q" /\ k = Ev.k /\ WQ /\ dq'[Ev.k] = Ev.v
 TWFin == /\ IsEv("W") /\ Ev.cls = "fin"
          /\ \/ WFin /\ dFin' = Ev.v /\ dFin' # dFin
